@@ -130,6 +130,18 @@ def execute(sc):
                                   missing=sorted(map(str, want - got)), extra=sorted(map(str, got - want)),
                                   schedule=si)
                 chaos.note_event(f"{alg} {ctx} {sorted(map(str, got))}")
+            # membership through the chain rule: lm(x + EOS) > 0 iff x is a string of the grammar
+            rules_pos = [(1, h, tuple(b)) for w, h, b in ab["rules"] if (w is True or (w is not False and w > 0))]
+            for ci in order[:15]:
+                ctx = sc["contexts"][ci]
+                if gen.EOS in ctx:
+                    continue
+                cctx = tuple(tmap.get(a, a) for a in ctx)
+                want_in = ref.ref_recognise(rules_pos, set(ab["V"]), ab["S"], tuple(ctx))
+                ok, v = guarded(out, comp, lambda: lm(cctx + (gen.EOS,)), sig={"phase": "call", "alg": alg})
+                out.evals += 1
+                if ok and (float(v) > 0) != want_in:
+                    out.violation(f"member:{alg}", sig={"alg": alg}, string=list(ctx), got=repr(v), want=want_in, schedule=si)
     out.probes.update({f"chaos_{k}": v for k, v in chaos.stats().items()})
     out.sample = {"grammar": ab["rules"], "S": ab["S"], "mode": ab["mode"], "n_contexts": len(sc["contexts"]),
                   "n_schedules": len(sc["schedules"]), "features": ab.get("features"),
